@@ -136,7 +136,6 @@ def check_ast(ast, acc, case):
     if got[0] != 'ok':
         acc.violation('compile-exception', case, 'Compiler.compile raised ' + got[1])
         return
-    pk = got[1]
     want = expected_steps(ast)
     if any(want):
         acc.nontrivial += 1
@@ -144,33 +143,39 @@ def check_ast(ast, acc, case):
     for w in want:
         acc.states.add(len(w))
         acc.trans.add(tuple(len(x) for x in w))
-    ids = [[s.get('astNodeIds') for s in p.get('steps', [])] for p in pk]
-    if ids != want:
-        i = next((i for i, (x, y) in enumerate(zip(ids, want)) if x != y), min(len(ids), len(want)))
-        acc.violation('step-sources', case, 'pickle %d: steps are not feature background + rule background + own steps' % i,
-                      observed=ids[i:i + 1], expected=want[i:i + 1])
-        return
-    if not A.compare(acc, case, 'step-arguments', 'pickle step arguments', P.p_c07(pk), P.p_c07(exp)):
-        return
-    # arguments carried over cell by cell / line by line wherever no substitution applies
     idx = step_index(ast)
-    for p in pk:
-        for s in p['steps']:
-            src = idx[s['astNodeIds'][0]]
-            if len(s['astNodeIds']) == 2:
-                continue
-            if s.get('text') != src['text']:
-                acc.violation('step-text', case, 'pickle step text differs from its source step', observed=s.get('text'), expected=src['text'])
-            if 'dataTable' in src:
-                w = {'dataTable': {'rows': [{'cells': [{'value': c['value']} for c in r['cells']]} for r in src['dataTable']['rows']]}}
-            elif 'docString' in src:
-                w = {'docString': {'content': src['docString']['content']}}
-                if 'mediaType' in src['docString']:
-                    w['docString']['mediaType'] = src['docString']['mediaType']
-            else:
-                w = None
-            if s.get('argument') != w:
-                acc.violation('step-arguments', case, 'argument of a background/plain step is not a verbatim copy', observed=s.get('argument'), expected=w)
+    for route, res in (('fresh compiler', got), ('compiler that compiled other documents before', P.compile_reused(ast))):
+        if res[0] != 'ok':
+            acc.violation('compile-exception', case, 'Compiler.compile (%s) raised %s' % (route, res[1]))
+            return
+        pk = res[1]
+        ids = [[s.get('astNodeIds') for s in p.get('steps', [])] for p in pk]
+        if ids != want:
+            i = next((i for i, (x, y) in enumerate(zip(ids, want)) if x != y), min(len(ids), len(want)))
+            acc.violation('step-sources', case, '%s: pickle %d: steps are not feature background + rule background + own steps' % (route, i),
+                          observed=ids[i:i + 1], expected=want[i:i + 1])
+            return
+        if not A.compare(acc, case, 'step-arguments', route + ': pickle step arguments', P.p_c07(pk), P.p_c07(exp)):
+            return
+        # arguments carried over cell by cell / line by line wherever no substitution applies
+        for p in pk:
+            for s in p['steps']:
+                src = idx[s['astNodeIds'][0]]
+                if len(s['astNodeIds']) == 2:
+                    continue
+                if s.get('text') != src['text']:
+                    acc.violation('step-text', case, route + ': pickle step text differs from its source step', observed=s.get('text'), expected=src['text'])
+                if 'dataTable' in src:
+                    w = {'dataTable': {'rows': [{'cells': [{'value': c['value']} for c in r['cells']]} for r in src['dataTable']['rows']]}}
+                elif 'docString' in src:
+                    w = {'docString': {'content': src['docString']['content']}}
+                    if 'mediaType' in src['docString']:
+                        w['docString']['mediaType'] = src['docString']['mediaType']
+                else:
+                    w = None
+                if s.get('argument') != w:
+                    acc.violation('step-arguments', case, route + ': argument of a background/plain step is not a verbatim copy', observed=s.get('argument'), expected=w)
+                    return
     if after != before:
         acc.violation('input-modified', case, 'Compiler.compile modified the document it was given')
 
